@@ -384,6 +384,31 @@ theorem openVault_encRows (rows : List Bytes) (hr : ∀ x ∈ rows, x.length < 2
   rw [this]
   cases (encRows rows).length - rows.length <;> simp [scan]
 
+/-! ### database backend -/
+
+/-- C13/9 (partial).  A folder edit on the database backend (two transactions): in every crash
+state the rows of the folder and its log are as before, as after, or the NEW rows with the OLD
+log; the log never holds part of an operation. -/
+theorem db_folder_edit_crash_states_partial (s : DB) (newVault : List Bytes) (ev : Bytes) :
+    ∀ t ∈ dbCrashStates s (dbFolderEdit newVault ev),
+      t = s ∨ t = { vault := newVault, log := s.log } ∨ t = { vault := newVault, log := s.log ++ [ev] } := by
+  intro t ht
+  simp only [dbFolderEdit, dbCrashStates, Txn.run, List.mem_cons, List.mem_singleton, List.not_mem_nil, or_false] at ht
+  rcases ht with h | h | h <;> simp [h]
+
+/-- C13/9 (finding).  The middle state is a crash state: rows one event ahead of the log. -/
+theorem db_folder_edit_gap_reachable (s : DB) (newVault : List Bytes) (ev : Bytes) :
+    { vault := newVault, log := s.log } ∈ dbCrashStates s (dbFolderEdit newVault ev) := by
+  simp [dbFolderEdit, dbCrashStates, Txn.run]
+
+/-- C13/10.  On the database backend a batch append, a rewind and a replace-all are single
+transactions: the log is as before or as after (no part of a batch, no empty window). -/
+theorem db_log_operations_atomic (s : DB) (op : Txn) :
+    ∀ t ∈ dbCrashStates s [op], t = s ∨ t = op.run s := by
+  intro t ht
+  simp only [dbCrashStates, List.mem_cons, List.mem_singleton, List.not_mem_nil, or_false] at ht
+  exact ht
+
 /- the hypotheses are satisfiable by a concrete non-trivial state -/
 example : ∃ s ∈ crashStates (s0 [83, 79] [9] [[1, 2]]) (folderEdit (vaultRewrite [9, 9]) [7]),
     s.vault = some [9, 9] ∧ logView 2 s = [[1, 2]] :=
